@@ -6,6 +6,8 @@ mod util;
 mod c17;
 mod c08;
 mod dicts;
+mod texts;
+mod tok;
 
 fn main() {
     let args: Vec<String> = std::env::args().collect();
@@ -18,6 +20,7 @@ fn main() {
         "c17-replay" => c17::replay(rest),
         "c17-record" => c17::record(rest),
         "c08-replay" => c08::replay(rest),
+        "tok-record" => tok::record(rest),
         other => {
             eprintln!("unknown subcommand {}", other);
             2
